@@ -4,6 +4,7 @@
   what the harness observed on the real crate.
 -/
 import CachedModel.State
+import CachedModel.Iter
 import CachedModel.Ack
 import CachedModel.Locks
 import CachedModel.LayerB
@@ -524,8 +525,8 @@ structure DriverState where
   broken : Bool := false     -- after an illegal oracle / event the rest of the case is skipped
   /-- the keys an OPEN multi-key iterator has not yet been asked for (`iteropen` / `iternext`): an iterator that is not
       drained at once is, call by call, `if keys.is_empty() || is_shutting_down() { end } else { Some(get(key)) }` — each
-      `next()` is the model's `get` of the head key (`Ev.get`; `client_mget` in `LayerB/Refine.lean` is the same statement
-      for the drained iterator). The list is the caller's own state, not the cache's: it lives here, not in `State`. -/
+      `next()` is `iterNext` of `CachedModel/Iter.lean` — the model's `get` of the head key; `CachedProofs/Extra/Iter.lean`:
+      `C02_iter_next_is_get`, `iter_drain_eq_multiGet` (drained with nothing in between it IS the multi-key read). The list is the caller's own state, not the cache's: it lives here, not in `State`. -/
   iter : List Nat := []
 
 /-- Processes one input line; returns the new driver state and the line to print (if any). -/
@@ -595,20 +596,22 @@ def driveLine (d : DriverState) (line : String) : DriverState × Option String :
     else (match d.st with
       | none => ({ d with broken := true }, some "R bad-event")
       | some s =>
-        match d.iter with
-        | [] => if k == "-" then (d, some s!"R iter end | {s.snap}") else ({ d with broken := true }, some "R illegal: the iterator is exhausted")
-        | h :: rest =>
-          if k != toString h then ({ d with broken := true }, some s!"R illegal: the iterator stands at key {h}")
-          else if s.shutting then (d, some s!"R iter end | {s.snap}")      -- `next()` answers `None` and keeps its keys
-          else match parseOracle otoks with
-            | none => ({ d with broken := true }, some "R bad-oracle")
-            | some o =>
-              match step s (.get h) o with
-              | .ok (s', .value v, o') =>
-                if o'.isEmpty then ({ d with st := some s', iter := rest }, some s!"R iter {optNatStr v} | {s'.snap}")
-                else ({ d with broken := true }, some "R illegal: oracle values left unconsumed")
-              | .ok _ => ({ d with broken := true }, some "R illegal: a get answered something else than a value")
-              | .error m => ({ d with broken := true }, some s!"R illegal: {m}"))
+        -- the line names the key the harness's iterator stands at ("-" = none left); it must be the model's
+        let stands := match d.iter with | [] => "-" | h :: _ => toString h
+        if k != stands then
+          ({ d with broken := true }, some (match d.iter with
+            | [] => "R illegal: the iterator is exhausted"
+            | h :: _ => s!"R illegal: the iterator stands at key {h}"))
+        -- a `next()` that ends the iteration consumes no oracle value: the oracle is read only when an item is due
+        else match (if d.iter.isEmpty || s.shutting then some ({} : Oracle) else parseOracle otoks) with
+          | none => ({ d with broken := true }, some "R bad-oracle")
+          | some o =>
+            match iterNext s d.iter o with       -- `CachedModel/Iter.lean`
+            | .ok (s', none, keys', _) => ({ d with st := some s', iter := keys' }, some s!"R iter end | {s'.snap}")
+            | .ok (s', some v, keys', o') =>
+              if o'.isEmpty then ({ d with st := some s', iter := keys' }, some s!"R iter {optNatStr v} | {s'.snap}")
+              else ({ d with broken := true }, some "R illegal: oracle values left unconsumed")
+            | .error m => ({ d with broken := true }, some s!"R illegal: {m}"))
   | "E" :: rest0 =>
     let rest := rest0.filter (fun t => !t.startsWith "#")
     if d.broken then (d, some "R skipped")
